@@ -68,145 +68,146 @@ fn c13d_anim_section_header_record() {
 }
 
 // ------------------------------------------------------------------ one section, one bone, one key per track
-fn one_bone_section(with_t: bool, with_r: bool, with_s: bool) -> AnimSection {
-    let mut bone = AnimBoneAnimation { bone_id: kani::any(), translation: None, rotation: None, scaling: None };
-    if with_t {
-        let mut ts = Vec::with_capacity(1); ts.push(kani::any::<u32>());
-        let mut vs = Vec::with_capacity(1); vs.push(C3Vector { x: kani::any(), y: kani::any(), z: kani::any() });
-        bone.translation = Some(AnimTranslation { timestamps: ts, translations: vs });
-    }
-    if with_r {
-        let mut ts = Vec::with_capacity(1); ts.push(kani::any::<u32>());
-        let mut vs = Vec::with_capacity(1); vs.push(Quaternion { x: kani::any(), y: kani::any(), z: kani::any(), w: kani::any() });
-        bone.rotation = Some(AnimRotation { timestamps: ts, rotations: vs });
-    }
-    if with_s {
-        let mut ts = Vec::with_capacity(1); ts.push(kani::any::<u32>());
-        let mut vs = Vec::with_capacity(1); vs.push(C3Vector { x: kani::any(), y: kani::any(), z: kani::any() });
-        bone.scaling = Some(AnimScaling { timestamps: ts, scalings: vs });
-    }
-    let mut bones = Vec::with_capacity(1);
-    bones.push(bone);
-    AnimSection { header: AnimSectionHeader { magic: *b"AFID", id: kani::any(), start: kani::any(), end: kani::any() }, bone_animations: bones }
+// Bytes direction (structure words assigned, contents symbolic): built from an AnimSection value, the key counts would come
+// out of Vecs that live in a heap object > 64 bytes, are not constants for symbolic execution, and the parser's
+// Vec::with_capacity(count) then exhausts 14 GB (measured).
+fn section_image() -> Seg {
+    let mut b = Seg::any(92);
+    b.set(0, b'A'); b.set(1, b'F'); b.set(2, b'I'); b.set(3, b'D');
+    b.set32(16, 20); // offset table: bone 0 at 20 (what the writer stores for a section written at position 0)
+    b.set32(24, 7);  // flags: translation | rotation | scaling
+    b.set32(28, 1);  // translation: 1 key (time stamp at 32, vector at 36)
+    b.set32(48, 1);  // rotation: 1 key (time stamp at 52, quaternion at 56)
+    b.set32(72, 1);  // scaling: 1 key (time stamp at 76, vector at 80)
+    b
 }
-fn v3eq(a: &C3Vector, b: &C3Vector) -> bool { a.x.to_bits() == b.x.to_bits() && a.y.to_bits() == b.y.to_bits() && a.z.to_bits() == b.z.to_bits() }
-
-/// AnimSection::write -> AnimSection::parse(size = section header + one offset per bone): content equal, second write identical
+/// AnimSection::parse on a 92-byte section image: fields where the layout puts them
 #[kani::proof]
 #[kani::stub(std::fmt::format, vio::fmt_stub)]
 #[kani::stub(std::string::String::from_utf8_lossy, segio::lossy_stub)]
 #[kani::unwind(5)]
-fn c13d_anim_section_roundtrip() {
-    let s = one_bone_section(true, true, true);
+fn c13d_anim_section_parse() {
+    let mut b = section_image();
+    let r = AnimSection::parse(&mut b, kc::AFID_HEADER_SIZE + 4);
+    if r.is_err() {
+        assert!(false, "well-formed section is rejected by the parser");
+        std::mem::forget(r);
+        return;
+    }
+    let d = r.unwrap();
+    kani::cover!(b.pos == 92);
+    assert!(b.pos == 92, "section parser does not consume header + offset table + bone data");
+    assert!(d.header.id == b.get32(4) && d.header.start == b.get32(8) && d.header.end == b.get32(12), "section header fields misplaced");
+    assert!(d.bone_animations.len() == 1, "bone count != (size - header) / 4");
+    {
+        let a = &d.bone_animations[0];
+        assert!(a.bone_id == b.get32(20), "bone id misplaced");
+        let t = a.translation.as_ref().unwrap();
+        assert!(t.timestamps.len() == 1 && t.translations.len() == 1 && t.timestamps[0] == b.get32(32)
+            && t.translations[0].x.to_bits() == b.get32(36) && t.translations[0].z.to_bits() == b.get32(44), "translation key misplaced");
+        let q = a.rotation.as_ref().unwrap();
+        assert!(q.timestamps.len() == 1 && q.rotations.len() == 1 && q.timestamps[0] == b.get32(52)
+            && q.rotations[0].x.to_bits() == b.get32(56) && q.rotations[0].w.to_bits() == b.get32(68), "rotation key misplaced");
+        let s = a.scaling.as_ref().unwrap();
+        assert!(s.timestamps.len() == 1 && s.scalings.len() == 1 && s.timestamps[0] == b.get32(76) && s.scalings[0].y.to_bits() == b.get32(84),
+            "scaling key misplaced");
+    }
+    std::mem::forget(d);
+}
+/// AnimSection::write of one bone with one translation key: exactly the image the parser reads (offset table points at the bone)
+#[kani::proof]
+#[kani::stub(std::fmt::format, vio::fmt_stub)]
+#[kani::stub(std::string::String::from_utf8_lossy, segio::lossy_stub)]
+#[kani::unwind(5)]
+fn c13d_anim_section_write() {
+    let (ts, x, z): (u32, f32, f32) = (kani::any(), kani::any(), kani::any());
+    let mut tv = Vec::with_capacity(1); tv.push(ts);
+    let mut vv = Vec::with_capacity(1); vv.push(C3Vector { x, y: 0.5, z });
+    let bone_id: u32 = kani::any();
+    let mut bones = Vec::with_capacity(1);
+    bones.push(AnimBoneAnimation { bone_id, translation: Some(AnimTranslation { timestamps: tv, translations: vv }), rotation: None, scaling: None });
+    let (id, end): (u32, u32) = (kani::any(), kani::any());
+    let s = AnimSection { header: AnimSectionHeader { magic: *b"AFID", id, start: 3, end }, bone_animations: bones };
     let mut out = Seg::new();
     let w = s.write(&mut out);
     assert!(w.is_ok());
-    // 16 header + 4 offset + 8 (bone id, flags) + (4 + 4 + 12) + (4 + 4 + 16) + (4 + 4 + 12)
-    kani::cover!(out.pos == 92);
-    assert!(out.pos == 92, "section length != header + offset table + bone data");
-    let off = out.get32(16);
-    assert!(off == 20, "bone offset in the section's offset table does not point at the bone data");
-    let mut src = out.into_source(); // also the first image from here on
-    let r = AnimSection::parse(&mut src, kc::AFID_HEADER_SIZE + 4);
-    if r.is_err() {
-        assert!(false, "section written by the library is rejected by its parser");
-        std::mem::forget((r, w, s));
-        return;
-    }
-    let d = r.unwrap();
-    assert!(src.pos == 92, "section parser does not consume the section the writer produced");
-    assert!(d.header.id == s.header.id && d.header.start == s.header.start && d.header.end == s.header.end, "section header changed");
-    assert!(d.bone_animations.len() == 1, "bone count changed in write->parse");
-    let (a, b) = (&s.bone_animations[0], &d.bone_animations[0]);
-    assert!(a.bone_id == b.bone_id, "bone id changed");
-    let (ta, tb) = (a.translation.as_ref().unwrap(), b.translation.as_ref().unwrap());
-    assert!(tb.timestamps.len() == 1 && tb.translations.len() == 1 && ta.timestamps[0] == tb.timestamps[0] && v3eq(&ta.translations[0], &tb.translations[0]),
-        "translation key changed in write->parse");
-    let (ra, rb) = (a.rotation.as_ref().unwrap(), b.rotation.as_ref().unwrap());
-    assert!(rb.timestamps.len() == 1 && ra.timestamps[0] == rb.timestamps[0] && ra.rotations[0].x.to_bits() == rb.rotations[0].x.to_bits()
-        && ra.rotations[0].y.to_bits() == rb.rotations[0].y.to_bits() && ra.rotations[0].z.to_bits() == rb.rotations[0].z.to_bits()
-        && ra.rotations[0].w.to_bits() == rb.rotations[0].w.to_bits(), "rotation key changed in write->parse");
-    let (sa, sb) = (a.scaling.as_ref().unwrap(), b.scaling.as_ref().unwrap());
-    assert!(sb.timestamps.len() == 1 && sa.timestamps[0] == sb.timestamps[0] && v3eq(&sa.scalings[0], &sb.scalings[0]), "scaling key changed in write->parse");
-    let mut out2 = Seg::new();
-    let w2 = d.write(&mut out2);
-    assert!(w2.is_ok() && out2.pos == 92);
-    let i: usize = kani::any();
-    kani::assume(i < 92);
-    assert!(out2.get(i) == src.get(i), "write(parse(write(section))) differs from write(section)");
-    std::mem::forget((s, d, w, w2));
+    kani::cover!(out.pos == 48, "section written");
+    assert!(out.pos == 48 && out.len == 48, "section length != header 16 + offset table 4 + bone (8 + 4 + 4 + 12)");
+    assert!(out.get(0) == b'A' && out.get(3) == b'D' && out.get32(4) == id && out.get32(8) == 3 && out.get32(12) == end, "section header wrong");
+    assert!(out.get32(16) == 20, "offset table does not point at the bone data");
+    assert!(out.get32(20) == bone_id && out.get32(24) == 1 && out.get32(28) == 1 && out.get32(32) == ts, "bone id / flags / key count / time stamp misplaced");
+    assert!(out.get32(36) == x.to_bits() && out.get32(40) == 0.5f32.to_bits() && out.get32(44) == z.to_bits(), "translation vector misplaced");
+    std::mem::forget((s, w));
 }
 
 // ------------------------------------------------------------------ whole modern file
-fn modern_file(section: AnimSection) -> AnimFile {
-    let mut sections = Vec::with_capacity(1);
-    let id = section.header.id;
-    sections.push(section);
-    let mut entries = Vec::with_capacity(1);
-    entries.push(AnimEntry { id, offset: kani::any(), size: kani::any() });
-    AnimFile { format: AnimFormat::Modern, sections,
-        metadata: AnimMetadata::Modern { header: AnimHeader { magic: ANIM_MAGIC, version: kani::any(), id_count: 1, unknown: kani::any(), anim_entry_offset: kani::any() }, entries } }
+/// 52-byte file image with one section whose single bone has no key frames
+fn file_image() -> Seg {
+    let mut b = Seg::any(52);
+    b.set(0, b'M'); b.set(1, b'A'); b.set(2, b'O'); b.set(3, b'F');
+    b.set32(8, 1);                 // id_count
+    b.set32(16, kc::ANIM_HEADER_SIZE); // anim_entry_offset
+    b.set32(24, kc::ANIM_HEADER_SIZE + kc::ANIM_ENTRY_SIZE); // entry 0: section offset
+    b.set32(28, 20);               // entry 0: section size = section header + one bone offset
+    b.set(32, b'A'); b.set(33, b'F'); b.set(34, b'I'); b.set(35, b'D');
+    b.set32(48, 0);                // bone 0: no data
+    b
 }
-
-/// file with one section whose single bone has no key frames (known finding anim-section-size excludes bones with data):
-/// entry table points at the section, entry.size == section length, parse returns the same content
+/// AnimFile::parse on that image: one section, one empty bone, fields where the layout puts them
+/// (known finding anim-section-size excludes bones with data)
 #[kani::proof]
 #[kani::stub(std::fmt::format, vio::fmt_stub)]
 #[kani::stub(std::string::String::from_utf8_lossy, segio::lossy_stub)]
 #[kani::unwind(5)]
-fn c13d_anim_file_roundtrip_empty_bone() {
-    let f = modern_file(one_bone_section(false, false, false));
-    let mut out = Seg::new();
-    let w = f.write(&mut out);
-    assert!(w.is_ok());
-    // write_modern ends by seeking back to the entry table: the file length (out.len) is the end of the last section
-    assert!(out.len == 52, "file length != header + entry table + section");
-    let eo = out.get32(16);
-    assert!(eo == kc::ANIM_HEADER_SIZE, "anim_entry_offset does not point behind the header");
-    let sec_off = out.get32(24);
-    let sec_size = out.get32(28);
-    kani::cover!(sec_off == 32 && sec_size == 20);
-    assert!(sec_off == kc::ANIM_HEADER_SIZE + kc::ANIM_ENTRY_SIZE, "entry offset does not point at the section");
-    assert!(sec_size == 20, "entry size != section length");
-    assert!(out.get(32) == b'A' && out.get(33) == b'F' && out.get(34) == b'I' && out.get(35) == b'D', "no section at the offset the entry points to");
-    let mut src = out.into_source();
-    let r = AnimFile::parse(&mut src);
+fn c13d_anim_file_parse() {
+    let mut b = file_image();
+    let r = AnimFile::parse(&mut b);
     if r.is_err() {
-        assert!(false, "anim file written by the library is rejected by its parser");
-        std::mem::forget((r, w, f));
+        assert!(false, "well-formed modern anim file is rejected by the parser");
+        std::mem::forget(r);
         return;
     }
     let d = r.unwrap();
-    assert!(d.format == AnimFormat::Modern && d.sections.len() == 1);
-    assert!(d.sections[0].header.id == f.sections[0].header.id && d.sections[0].header.start == f.sections[0].header.start
-        && d.sections[0].header.end == f.sections[0].header.end, "section header changed in file write->parse");
-    assert!(d.sections[0].bone_animations.len() == 1 && d.sections[0].bone_animations[0].translation.is_none(), "bone list changed in file write->parse");
-    std::mem::forget((f, d, w));
+    kani::cover!(d.sections.len() == 1);
+    assert!(d.format == AnimFormat::Modern && d.sections.len() == 1, "section count != id_count");
+    assert!(d.sections[0].header.id == b.get32(36) && d.sections[0].header.start == b.get32(40) && d.sections[0].header.end == b.get32(44),
+        "section header fields misplaced");
+    assert!(d.sections[0].bone_animations.len() == 1 && d.sections[0].bone_animations[0].translation.is_none()
+        && d.sections[0].bone_animations[0].rotation.is_none(), "bone list wrong");
+    match &d.metadata {
+        AnimMetadata::Modern { header, entries } => {
+            assert!(header.version == b.get32(4) && header.unknown == b.get32(12) && entries.len() == 1 && entries[0].id == b.get32(20), "header / entry fields misplaced");
+        }
+        _ => assert!(false, "modern file parsed with legacy metadata"),
+    }
+    std::mem::forget(d);
 }
+// The writing half at file level (AnimFile::write of that content, compared with the image) is not registered: it ends without a
+// verdict under the 14 GB memory cap (loops over the section / bone / entry Vecs are unwound to the bound, nested).  What it
+// would add - entry.size == section length - is the subject of c13d_anim_section_write plus the witness below.
 
-/// witness (known finding anim-section-size): one bone with one translation key.  AnimFile::write stores the whole section
-/// length in the entry, AnimSection::parse derives the bone count from that length
+/// witness (known finding anim-section-size): AnimFile::write_modern stores the whole section length in entry.size
+/// (section_end - section_start, here 48) and parse_modern hands that to AnimSection::parse, which takes (size - 16) / 4 for the
+/// number of bones.  Image of a section with one bone and one translation key, parsed with its own length:
 #[kani::proof]
 #[kani::stub(std::fmt::format, vio::fmt_stub)]
 #[kani::stub(std::string::String::from_utf8_lossy, segio::lossy_stub)]
-#[kani::unwind(20)]
-fn c13d_anim_file_bone_data_witness() {
-    let mut ts = Vec::with_capacity(1); ts.push(10u32);
-    let mut vs = Vec::with_capacity(1); vs.push(C3Vector { x: 1.0, y: 2.0, z: 3.0 });
-    let mut bones = Vec::with_capacity(1);
-    bones.push(AnimBoneAnimation { bone_id: 3, translation: Some(AnimTranslation { timestamps: ts, translations: vs }), rotation: None, scaling: None });
-    let section = AnimSection { header: AnimSectionHeader { magic: *b"AFID", id: 5, start: 1, end: 2 }, bone_animations: bones };
-    let mut sections = Vec::with_capacity(1); sections.push(section);
-    let mut entries = Vec::with_capacity(1); entries.push(AnimEntry { id: 5, offset: 0, size: 0 });
-    let f = AnimFile { format: AnimFormat::Modern, sections,
-        metadata: AnimMetadata::Modern { header: AnimHeader { magic: ANIM_MAGIC, version: 1, id_count: 1, unknown: 0, anim_entry_offset: 20 }, entries } };
-    let mut out = Seg::new();
-    assert!(f.write(&mut out).is_ok());
-    let mut src = out.into_source();
-    let r = AnimFile::parse(&mut src);
-    let ok = match &r { Ok(d) => d.sections.len() == 1 && d.sections[0].bone_animations.len() == 1, Err(_) => false };
-    assert!(ok, "anim file with key-frame data written by the library is not read back (bone count derived from the section length)");
-    std::mem::forget((f, r));
+#[kani::unwind(12)]
+fn c13d_anim_section_size_witness() {
+    let mut b = Seg::new();
+    b.len = 48;
+    b.set(0, b'A'); b.set(1, b'F'); b.set(2, b'I'); b.set(3, b'D');
+    b.set32(4, 5); b.set32(8, 1); b.set32(12, 2);
+    b.set32(16, 20);        // bone 0 at 20
+    b.set32(20, 3);         // bone id
+    b.set32(24, 1);         // flags: translation
+    b.set32(28, 1);         // 1 key
+    b.set32(32, 10);        // time stamp
+    b.set32(36, 0x3f800000); b.set32(40, 0x40000000); b.set32(44, 0x40400000);
+    let r = AnimSection::parse(&mut b, 48);
+    let ok = match &r { Ok(d) => d.bone_animations.len() == 1, Err(_) => false };
+    assert!(ok, "anim section parsed with the length the file writer records for it: bone count derived from the section length is wrong");
+    std::mem::forget(r);
 }
 
 /// witness (known finding anim-legacy-placeholder): a legacy-format file loses the section header in write -> parse
